@@ -144,10 +144,6 @@ pub fn sc_list(s: &str) -> Result<Vec<Scalar>, Fail> {
     list(s)?.into_iter().map(sc).collect()
 }
 
-pub fn sc_raw_list(s: &str) -> Result<Vec<Scalar>, Fail> {
-    list(s)?.into_iter().map(sc_raw).collect()
-}
-
 /// Edwards point argument (hex check only); decompress with `dec_ed`.
 pub fn ced(s: &str) -> Result<CompressedEdwardsY, Fail> {
     Ok(CompressedEdwardsY(hx::<32>(s)?))
